@@ -364,8 +364,13 @@ class Ref:
                 if self.ev(c[1], None):
                     raise (Brk if k == "dobrk" else Cnt)()
                 go(i + 1)
-        if first_for is None or first_for != 0:
-            raise NoClaim("for whose first clause is not an iteration clause")
+        # the else belongs to the outermost iteration clause, wherever it stands in the clause list
+        # (docs/api.rst, for); with no iteration clause, or an :if in front of it that may keep the loop
+        # from starting at all, the text makes no claim
+        if first_for is None:
+            raise NoClaim("for without an iteration clause")
+        if orelse and any(c[0] == "if" for c in clauses[:first_for]):
+            raise NoClaim("for/else with an :if before the outermost iteration clause")
         go(0)
 
     def run(self):
